@@ -31,8 +31,13 @@ var noAuth aFile = aFile{session: nil, afid: NOFID}
 func (af aFile) Success() bool {
 	return false
 }
+
+// Close lets go of the auth fid: the server holds it until it is clunked.
 func (af aFile) Close(ctx context.Context) error {
-	return nil
+	if af.session == nil { // noAuth: no Tauth succeeded, nothing to clunk
+		return nil
+	}
+	return af.session.Clunk(ctx, af.afid)
 }
 func (af aFile) Read(ctx context.Context, p []byte, offset int64) (int, error) {
 	return af.session.Read(ctx, af.afid, p, offset)
